@@ -16,7 +16,9 @@ RULE = (
     "into (FROM, criteria with bound values, LIMIT) and compared with the model's result for the whole history; the "
     "per-variable decision of AnalyzedCode (bound / keyed element / keyed code) is compared with the model's "
     "classification. Oracle: rows and literal-rendered SQL of every construction vs the same statement built without "
-    "lambda_stmt. One case in five carries ONE shape outside the guard (None operand/limit, helper with own closure, "
+    "lambda_stmt. Oracle-only families (outside the Coq model): a date closure value used directly AND through .year/.month/"
+    ".day; ORM entities (mapped class, aliased()) as closure variables of a generic lambda; a tracked literal next to a "
+    "literal inside loader-option criteria. One case in five carries ONE shape outside the guard (None operand/limit, helper with own closure, "
     "truth test of a bound cell, list index): the model is faithful there too; the oracle hit is a known finding. "
     "non-trivial = the history re-uses a code object with different closure values at least twice"
 )
@@ -302,16 +304,53 @@ def _has_unsafe(b, unsafe):
     return False
 
 
+ATTR_SHAPES = [
+    "select(ev.c.id).where(ev.c.created <= d).where(ev.c.yr == d.year)",
+    "select(ev.c.id).where(ev.c.yr == d.year).where(ev.c.created <= d)",
+    "select(ev.c.id).where(ev.c.created <= d).where(ev.c.yr == d.year).where(ev.c.id > d.month)",
+    "select(ev.c.id).where(ev.c.created > d).where(ev.c.id <= d.day).where(ev.c.yr != d.year)",
+    "select(ev.c.id, ev.c.yr).where(ev.c.yr >= d.year).where(ev.c.created != d).where(ev.c.id.in_(lst))",
+]
+ORM_SHAPES = [
+    "select(ent.id, ent.name).where(ent.id > lo)",
+    "select(ent).where(ent.name != nm).where(ent.id >= lo)",
+    "select(ent.name).where(ent.id.in_(lst))",
+]
+ENTITIES = ["User", "Address", "aliased(Address)", "aliased(User)", "aliased(Address, name='zz')"]
+LOADERS = ["selectinload", "lazyload", "subqueryload", "joinedload"]
+
+
+def _gen_extra(rng, tier):
+    """oracle-only families (not in the Coq model): a closure object used directly AND through its attributes; ORM entities
+    (mapped classes, aliased()) as closure variables; a tracked literal next to a literal inside loader-option criteria"""
+    out = []
+    n = 60 if tier == "thorough" else 8
+    for i in range(n):
+        hist = [[rng.randint(2019, 2022), rng.randint(1, 12), rng.randint(1, 28), [rng.randint(1, 12) for _ in range(rng.randint(0, 3))]]
+                for _ in range(rng.randint(3, 5))]
+        out.append({"in": [9, 1, i], "kind": "attr", "model": False, "unsafe": "extra", "shape": rng.randrange(len(ATTR_SHAPES)), "hist": hist})
+    for i in range(n):
+        hist = [[rng.randrange(len(ENTITIES)), rng.randint(0, 4), rng.choice(["n1", "n2", "n3"]), [rng.randint(1, 6) for _ in range(rng.randint(0, 3))]]
+                for _ in range(rng.randint(3, 5))]
+        out.append({"in": [9, 2, i], "kind": "orm", "model": False, "unsafe": "extra", "shape": rng.randrange(len(ORM_SHAPES)), "hist": hist})
+    for i in range(max(2, n // 4)):
+        hist = [[rng.randint(0, 3), rng.choice(["e0", "e1", "e2"])] for _ in range(rng.randint(3, 4))]
+        out.append({"in": [9, 3, i], "kind": "ormcrit", "model": False, "unsafe": "extra", "loader": rng.randrange(len(LOADERS)), "hist": hist})
+    return out
+
+
 def gen_cases(rng, tier):
     cases = []
     n = 3000 if tier == "thorough" else 240
     for i in range(n):
         unsafe = rng.choice(UNSAFE) if i % 5 == 0 else None
         cases.append(_gen_case(rng, unsafe))
-    return cases
+    return cases + _gen_extra(rng, tier)
 
 
 def nontrivial(c):
+    if c.get("kind") in ("attr", "orm", "ormcrit") or c.get("family") in ("attr", "orm", "ormcrit"):
+        return len({json.dumps(h) for h in c["hist"]}) >= 2
     seen = {}
     for ch in c["in"][2]:
         for code, env in ch:
@@ -545,12 +584,123 @@ def _impl_twin(c):
     return []
 
 
+def _orm():
+    if "User" not in _ENV:
+        from sqlalchemy import Column, Date, ForeignKey, Integer, String
+        from sqlalchemy.orm import Session, declarative_base, relationship
+        import datetime
+
+        env = _db()
+        Base = declarative_base()
+
+        class User(Base):
+            __tablename__ = "users"
+            id = Column(Integer, primary_key=True)
+            name = Column(String)
+            addresses = relationship("Address", order_by="Address.id")
+
+        class Address(Base):
+            __tablename__ = "addresses"
+            id = Column(Integer, primary_key=True)
+            user_id = Column(ForeignKey("users.id"))
+            name = Column(String)
+            email = Column(String)
+
+        class Ev(Base):
+            __tablename__ = "ev"
+            id = Column(Integer, primary_key=True)
+            created = Column(Date)
+            yr = Column(Integer)
+
+        Base.metadata.create_all(env["e"])
+        with Session(env["e"]) as s:
+            for i in range(1, 6):
+                s.add(User(id=i, name="n%d" % (i % 3 + 1),
+                           addresses=[Address(id=i * 10 + k, name="n%d" % (k + 1), email="e%d" % k) for k in range(3)]))
+            n = 0
+            for yr in (2019, 2020, 2021, 2022):
+                for month in (2, 6, 10):
+                    n += 1
+                    s.add(Ev(id=n, created=datetime.date(yr, month, 15), yr=yr))
+            s.commit()
+        _ENV.update(User=User, Address=Address, ev=Ev.__table__)
+    return _ENV
+
+
+def _impl_extra(c, kind):
+    """oracle-only: every invocation of the lambda statement vs the same statement built directly"""
+    import datetime
+
+    import sqlalchemy
+    from sqlalchemy import exc, lambda_stmt, select
+    from sqlalchemy import orm
+    from sqlalchemy.orm import Session, aliased
+
+    env = _orm()
+    _ENV["n"] = _ENV.get("n", 0) + 1
+    ns = {"select": select, "lambda_stmt": lambda_stmt, "ev": env["ev"], "User": env["User"], "Address": env["Address"], "aliased": aliased}
+    if kind == "attr":
+        expr, args = ATTR_SHAPES[c["shape"]], "d, lst"
+    elif kind == "orm":
+        expr, args = ORM_SHAPES[c["shape"]], "ent, lo, nm, lst"
+    else:
+        ns["ld"] = getattr(orm, LOADERS[c["loader"]])
+        expr = "select(User).options(ld(User.addresses.and_(Address.email != aexcl))).where(User.id > zmin).order_by(User.id)"
+        args = "zmin, aexcl"
+    src = "def mk(%s):\n    return lambda: %s\ndef direct(%s):\n    return %s\n" % (args, expr, args, expr)
+    exec(compile("\n" * (40 * _ENV["n"]) + src, "<c17 extra %d>" % _ENV["n"], "exec"), ns)
+    checks = []
+    for k, h in enumerate(c["hist"]):
+        if kind == "attr":
+            vals = (datetime.date(h[0], h[1], h[2]), h[3])
+            dvals = vals
+        elif kind == "orm":
+            ent = eval(ENTITIES[h[0]], ns)
+            dent = eval(ENTITIES[h[0]], ns)
+            vals, dvals = (ent, h[1], h[2], h[3]), (dent, h[1], h[2], h[3])
+        else:
+            vals = dvals = (h[0], h[1])
+
+        def run(st):
+            with Session(env["e"]) as sess:
+                if kind == "ormcrit":
+                    res = sess.execute(st)
+                    if LOADERS[c["loader"]] == "joinedload":
+                        res = res.unique()
+                    return [(u.id, [a.email for a in u.addresses]) for u in res.scalars()]
+                rows = sess.execute(st).all()
+                return sorted(tuple(getattr(x, "id", x) for x in r) for r in rows)
+
+        def lit(st):
+            return " ".join(str(st.compile(env["e"], compile_kwargs={"literal_binds": True})).split())
+
+        direct = ns["direct"](*dvals)
+        drows, dsql = run(direct), lit(direct)
+        try:
+            st = lambda_stmt(ns["mk"](*vals))
+            lrows, lsql = run(st), lit(st)
+        except exc.InvalidRequestError as ex:
+            checks.append({"k": k, "rejected": str(ex)[:160], "direct_ok": True})
+            continue
+        checks.append({"k": k, "lrows": lrows, "drows": drows, "lsql": lsql, "dsql": dsql, "direct_ok": True})
+    _LAST["checks"] = checks
+    _LAST["id"] = id(c)
+    return []
+
+
+def _family(c):
+    k = c.get("kind", "")
+    return c.get("family") if k.startswith(("witness:", "corpus:")) else k
+
+
 def impl(c):
     import sqlalchemy
     from sqlalchemy import exc, lambda_stmt, select
 
     if c.get("twin_module"):
         return _impl_twin(c)
+    if _family(c) in ("attr", "orm", "ormcrit"):
+        return _impl_extra(c, _family(c))
     env = _db()
     ns = {"t": env["t"], "u": env["u"], "select": select, "lambda_stmt": lambda_stmt}
     # code objects compare BY VALUE and the comparison ignores co_filename: AnalyzedCode._fns and the lambda cache are keyed
@@ -626,7 +776,7 @@ def oracle(c, obs):
         if ck is None or not ck.get("direct_ok"):
             continue  # documented refusal / the direct construction is itself refused
         if "rejected" in ck:
-            if c.get("unsafe") is None:
+            if c.get("unsafe") is None or c.get("unsafe") == "extra":
                 # every closure value of a 'safe' case is a literal used as a bound value, a column, a table or a helper
                 # function: "literal closure values become fresh bound parameters" - a refusal is not that
                 return "inv=%d: the lambda statement was refused (InvalidRequestError: %s) although every closure value is a bound literal, a column, a table or a called function" % (ck["k"], ck["rejected"])
@@ -648,6 +798,10 @@ def _short(r):
 def match_finding(c, what):
     if c.get("twin_module"):
         return "C17-equal-code-objects-share-cache"
+    if _family(c) == "ormcrit" and "refused" not in what:
+        return "C17-loader-criteria-literal-stale"
+    if _family(c) in ("attr", "orm", "ormcrit"):
+        return None
     m = _re.match(r"inv=(\d+):", what)
     if not m:
         return None
